@@ -177,3 +177,16 @@ Definition astr (a : oalign) : salign := map (fun nr => (fst nr, row_str (snd nr
 (** the alignment invariant: every row well formed, one moltype, rows equally long *)
 Definition AlnWF (a : oalign) : Prop :=
   a <> [] /\ Forall (fun nr => RowWF (snd nr) /\ skind (adata (snd nr)) = al_kind a) a /\ rect (astr a).
+
+(** ** read-only methods as functions of the named gapped strings *)
+Definition s_names (a : salign) : list Z := map fst a.
+Definition s_get_gapped_seq (a : salign) (n : Z) : option (list Z) := find_row n a.
+(** column [j] *)
+Definition s_positions (a : salign) : list (list Z) :=
+  map (fun j => flat_map (fun s => ssub s j (j + 1)) (srows a)) (zrange 0 (slen a)).
+Definition s_gap_array (a : salign) : list (list bool) := map (fun nr => map is_gapch (snd nr)) a.
+(** number of rows with a gap character in column [j] *)
+Definition s_count_gaps_per_pos (a : salign) : list Z :=
+  map (fun j => zlen (filter (fun s => is_gapch (znth 0 s j)) (srows a))) (zrange 0 (slen a)).
+(** the ungapped sequences *)
+Definition s_degap (a : salign) : salign := map_rows (filter (fun c => negb (is_gapch c))) a.
